@@ -34,8 +34,16 @@ def store_scenarios(rng, n):
                 p = bytes(rng.choice(ALPHA) for _ in range(rng.randint(1, 3)))
             reqs.append(R("KEYS", raw(p)))
             reqs.append(R("SCAN", tok("int", n=0), tok("word", w="MATCH"), raw(p), tok("word", w="COUNT"), tok("int", n=1000)))
-        out.append({"handler": "example", "tracer": False, "nconns": 1, "model": True,
-                    "steps": [{"c": 0, "op": "send", "chunking": "perreq", "reqs": reqs}]})
+        steps = [{"c": 0, "op": "send", "chunking": "perreq", "reqs": reqs}]
+        # full cursor iterations (adaptive: the driver re-sends SCAN with the cursor it was given until it gets 0)
+        for cnt in (None, 1, 2, 3, len(keys), 1000):
+            k = rng.choice(sorted(keys))
+            p = rng.choice([b"*", bytes(rng.choice(b"*?") if rng.random() < 0.4 else c for c in k)])
+            args = [tok("int", n=0)] + ([tok("word", w="MATCH"), raw(p)] if p != b"*" or rng.random() < 0.5 else [])
+            if cnt is not None:
+                args += [tok("word", w="COUNT"), tok("int", n=cnt)]
+            steps.append({"c": 0, "op": "scaniter", "at": 4 * len(keys) + 8, "reqs": [R("SCAN", *args)]})
+        out.append({"handler": "example", "tracer": False, "nconns": 1, "model": True, "steps": steps})
     return out
 
 
@@ -89,9 +97,9 @@ def run(ctx):
         "rule": "every pattern up to the tier's length over {a b * ? . + ( | $} against EVERY key up to length 3 over the same alphabet "
                 "(complete), plus seeded random patterns up to length 12 over the characters the property names with keys derived from them; "
                 "glob.Compile(p).MatchString(k) is recorded per pattern and TLC recomputes the match set with Glob!Match (which MC_C17 shows "
-                "equal to an independent NFA formulation). KEYS p and SCAN 0 MATCH p COUNT 1000 run against populated example stores and are "
-                "compared with the model's selection. evaluations = (pattern, key) pairs; non-trivial = patterns containing a wildcard or a "
+                "equal to an independent NFA formulation). KEYS p, SCAN 0 MATCH p COUNT 1000 and full SCAN cursor iterations with COUNT 1, 2, 3, n, 1000 and the default run "
+                "against populated example stores and are compared with the model's selection. evaluations = (pattern, key) pairs; non-trivial = patterns containing a wildcard or a "
                 "regexp metacharacter",
         "samples": samples or [{"note": "none"}], "exhaustive": True, "patterns": len(scs), "store_scenarios": len(scs2),
     }, assumptions=["Redis [...] classes and backslash escapes are not part of the property and are not generated",
-                    "SCAN is observed in one call with COUNT larger than the keyspace; the returned cursor is not judged"])
+                    "SCAN cursor values are the server's choice; a full iteration (driver follows the cursor, bounded by 4*keys+8 calls) must end and must have returned every matching key"])
